@@ -666,14 +666,14 @@ func (idx *MergeSetIndex) getSeriesIdBySeriesKey(seriesKeyWithVersion []byte) (u
 	is := idx.getIndexSearch()
 	defer idx.putIndexSearch(is)
 
-	tsid, err = is.getTSIDBySeriesKey(seriesKeyWithVersion)
+	// the ids of dropped series stay in the index until they are purged: skip them, the key may have a live id behind them
+	tsid, err = is.getLiveTSIDBySeriesKey(seriesKeyWithVersion, idx.GetDeletedTSIDs())
 
 	if err == nil {
-		if delTsidSet := idx.GetDeletedTSIDs(); delTsidSet == nil || !delTsidSet.Has(tsid) {
-			return tsid, nil
-		}
+		return tsid, nil
 	}
 
+	tsid = 0
 	if err != io.EOF {
 		return 0, err
 	}
